@@ -140,6 +140,31 @@ def mutate(gen, g, v, rng):
     return gen.leaf()
 
 
+def shared_twins(gen, g, rng):
+    """Pairs (A, B): A holds ONE instance X in two places, B has an equal rebuild of X at the first
+    place and a different value at the second (and the mirror image) -- for comparisons that remember
+    which sub-objects they have already compared."""
+    out = []
+    for _ in range(3):
+        x = gen.obj(1)
+        if not type(x)._fields:
+            x = g.U1(gen.leaf())
+        x2 = type(x)(**{f: getattr(x, f) for f in type(x)._fields})         # equal, distinct identity
+        y = mutate(gen, g, x, rng)
+        shapes = [
+            lambda p, q: g.B2(p, q),
+            lambda p, q: g.T3(g.U1(p), gen.leaf(), [q]),
+            lambda p, q: g.Infix(p, '+', q),
+            lambda p, q: g.U1([p, 0, q]),
+            lambda p, q: g.U1({'k1': p, 'k2': q}),
+            lambda p, q: g.U1((p, (q,))),
+            lambda p, q: g.B2(g.Prefix('-', p), g.Postfix(q, '!')),
+        ]
+        mk = rng.choice(shapes)
+        out += [mk(x, x), mk(x2, y), mk(y, x2), mk(x2, x2)]
+    return out
+
+
 # -- reference structural equality (iterative) ------------------------------------
 
 def ref_eq(g, a, b):
